@@ -55,13 +55,26 @@ type shapeFile struct {
 	Text string `json:"text"`
 }
 
-type shapeRec struct {
-	ID        string      `json:"id"`
-	SlotFile  string      `json:"slotFile"`
-	Paths     []string    `json:"paths"`
-	Files     []shapeFile `json:"files"`
-	Annotated []string    `json:"annotated"`
+type shapeDims struct {
+	Rk   string `json:"rk"`
+	Se   string `json:"se"`
+	Wrap string `json:"wrap"`
+	Use  bool   `json:"use"`
 }
+
+type shapeRec struct {
+	ID          string      `json:"id"`
+	SlotFile    string      `json:"slotFile"`
+	Paths       []string    `json:"paths"`
+	Files       []shapeFile `json:"files"`
+	Annotated   []string    `json:"annotated"`
+	Cjs         []string    `json:"cjs"`
+	ReadExports bool        `json:"readExports"`
+	Dims        shapeDims   `json:"dims"`
+}
+
+// the global the exports of an iife bundle are assigned to (re-export family only)
+const globalName = "__c04exports"
 
 type graphRec struct {
 	Shape     string   `json:"shape"`
@@ -72,6 +85,10 @@ type graphRec struct {
 	Native    []string `json:"native"`
 	AnnKeep   bool     `json:"annKeep"`
 	SlotKept  bool     `json:"slotKept"`
+	// re-export family: the model's verdict on its own graph, the wrap kind per file, the entry's export names
+	ExportsInit bool     `json:"exportsInit"`
+	Wrap        []string `json:"wrap"`
+	ExportNames []string `json:"exportNames"`
 }
 
 // ---- one scenario and its builds
@@ -117,16 +134,20 @@ type nodeBundle struct {
 	Code   string `json:"code"`
 }
 type nodeCase struct {
-	ID      string            `json:"id"`
-	Alone   string            `json:"alone"`
-	Files   map[string]string `json:"files"`
-	Entry   string            `json:"entry"`
-	Bundles []nodeBundle      `json:"bundles"`
+	ID          string            `json:"id"`
+	Alone       string            `json:"alone"`
+	Files       map[string]string `json:"files"`
+	Entry       string            `json:"entry"`
+	Cjs         []string          `json:"cjs,omitempty"`
+	ReadExports bool              `json:"readExports,omitempty"`
+	GlobalName  string            `json:"globalName,omitempty"`
+	Bundles     []nodeBundle      `json:"bundles"`
 }
 type nodeTrace struct {
 	Trace   []string `json:"trace"`
 	Err     string   `json:"err"`
 	Timeout bool     `json:"timeout"`
+	Exports []string `json:"exports"` // nil = not observed
 }
 type nodeBundleResult struct {
 	Name       string   `json:"name"`
@@ -136,6 +157,7 @@ type nodeBundleResult struct {
 	Scanned    bool     `json:"scanned"`
 	ParseError string   `json:"parseError"`
 	Timeout    bool     `json:"timeout"`
+	Exports    []string `json:"exports"` // nil = not observed
 }
 type nodeResult struct {
 	ID        string             `json:"id"`
@@ -156,6 +178,12 @@ type partOut struct {
 	Deps  [][]int `json:"deps"`
 	Srecs []int   `json:"srecs"`
 }
+type expOut struct {
+	Alias     string  `json:"alias"`
+	File      int     `json:"file"`
+	Decl      [][]int `json:"decl"`
+	ReExports [][]int `json:"reExports"`
+}
 type fileOut struct {
 	ID        int       `json:"id"`
 	Path      string    `json:"path"`
@@ -163,6 +191,8 @@ type fileOut struct {
 	Entry     bool      `json:"entry"`
 	SeFree    bool      `json:"seFree"`
 	Annotated bool      `json:"annotated"`
+	Wrap      string    `json:"wrap"`
+	Exps      []expOut  `json:"exps"` // what an entry point exports: resolved file, declaring parts, re-export statements passed
 	Parts     []partOut `json:"parts"`
 }
 type slotOut struct {
@@ -193,6 +223,9 @@ type record struct {
 	Predicted  []string  `json:"predicted"`
 	Rskip      bool      `json:"rskip"`
 	Dangling   []string  `json:"dangling"`
+	NatX       []string  `json:"natX"` // exports of the entry point read after loading: native graph / bundle
+	BunX       []string  `json:"bunX"`
+	Xcmp       bool      `json:"xcmp"` // both observed
 	cr         *caseRun
 	b          *build
 }
@@ -316,6 +349,9 @@ func runBuilds(r *core.Run, cr *caseRun) {
 			Pure:              []string{"PU"},
 			LogLevel:          api.LogLevelSilent,
 		}
+		if s.Shape.ReadExports && s.Format == "iife" {
+			opts.GlobalName = globalName
+		}
 		switch mode {
 		case "true":
 			opts.TreeShaking = api.TreeShakingTrue
@@ -380,7 +416,31 @@ func project(rc *record, link map[string]interface{}, root string, shape *shapeR
 	rc.Ts, _ = link["treeShaking"].(bool)
 	for _, k := range keep {
 		f := k.m
-		fo := fileOut{ID: asInt(f["idx"]), Path: k.rel, Annotated: annotated[k.rel], Parts: []partOut{}}
+		fo := fileOut{ID: asInt(f["idx"]), Path: k.rel, Annotated: annotated[k.rel], Parts: []partOut{}, Exps: []expOut{}, Wrap: "none"}
+		if w, ok := f["wrap"].(string); ok {
+			fo.Wrap = w
+		}
+		pairs := func(v interface{}) [][]int {
+			out := [][]int{}
+			if xs, ok := v.([]interface{}); ok {
+				for _, x := range xs {
+					if d, ok := x.([]int); ok && len(d) == 2 && inRecord[d[0]] {
+						out = append(out, []int{d[0], d[1]})
+					}
+				}
+			}
+			return out
+		}
+		if xs, ok := f["entryExports"].([]interface{}); ok {
+			for _, xv := range xs {
+				x, _ := xv.(map[string]interface{})
+				if x == nil || !inRecord[asInt(x["file"])] {
+					continue
+				}
+				alias, _ := x["alias"].(string)
+				fo.Exps = append(fo.Exps, expOut{Alias: alias, File: asInt(x["file"]), Decl: pairs(x["decl"]), ReExports: pairs(x["reExports"])})
+			}
+		}
 		fo.Live, _ = f["isLive"].(bool)
 		fo.Entry, _ = f["isEntry"].(bool)
 		fo.SeFree, _ = f["sideEffectsFree"].(bool)
@@ -508,6 +568,12 @@ func validate(r *core.Run, recs []*record, st *stats) {
 			st.mu.Lock()
 			st.violByInv[inv]++
 			st.mu.Unlock()
+			if inv == "ExportDepsLive" {
+				// the design keeps EVERY declaring part and re-export statement of an entry export live; a dead one that
+				// initialises nothing is harmless: observed and counted, the verdict is ExportsInitialised / the traces
+				r.Logf("design deviation (not a verdict): %s mode=%s: a re-export statement / declaring part of an entry export is not live", s.id(), rc.Mode)
+				continue
+			}
 			key := map[string]interface{}{"invariant": inv, "form": s.Stmt.Form, "outer": s.Stmt.Outer, "inner": s.Stmt.Inner,
 				"shape": s.ShapeID, "format": s.Format, "minify": s.Minify, "ignoreAnn": s.IgnoreAnn, "mode": rc.Mode}
 			r.Violation(key,
@@ -557,6 +623,51 @@ func Run(r *core.Run) {
 					r.Set("simulated_states", n)
 				}
 			}
+		}()
+		// necessity of every edge kind of scanImportsAndExports step 6 (useDecl, usePass, entryDecl, entryPass,
+		// entryPassSelf, wrapUse, lazyFile): the mutant of the dependency construction that leaves the kind out must
+		// break a semantic invariant on some graph of the family (the failing graphs are exported, never verdicts)
+		var necMu sync.Mutex
+		necessity := map[string]int{}
+		var necWG sync.WaitGroup
+		dropCfg := "Shake.dropq.cfg"
+		if r.Thorough() {
+			dropCfg = "Shake.drop.cfg"
+		}
+		for _, cfg := range []string{dropCfg, "Shake.drop3.cfg"} {
+			designWG.Add(1)
+			necWG.Add(1)
+			go func(cfg string) {
+				defer designWG.Done()
+				defer necWG.Done()
+				tlcrun.MustHold(r, tlcrun.Options{Module: "ShakeMC", Config: cfg, Workers: 2, TimeoutSec: r.Pick(900, 2400), OnCase: func(raw []byte) {
+					var c struct {
+						Rec   string   `json:"rec"`
+						Kinds []string `json:"kinds"`
+					}
+					if json.Unmarshal(raw, &c) != nil || c.Rec != "nec" {
+						return
+					}
+					necMu.Lock()
+					for _, k := range c.Kinds {
+						necessity[k]++
+					}
+					necMu.Unlock()
+				}})
+			}(cfg)
+		}
+		designWG.Add(1)
+		go func() {
+			defer designWG.Done()
+			necWG.Wait()
+			necMu.Lock()
+			defer necMu.Unlock()
+			for _, k := range []string{"useDecl", "usePass", "entryDecl", "entryPass", "entryPassSelf", "wrapUse", "lazyFile"} {
+				if necessity[k] == 0 {
+					r.Infra("necessity: leaving out the edge kind %s of step 6 violates no invariant on any graph of the model family: the design check does not constrain it", k)
+				}
+			}
+			r.Set("edge_kind_necessity_graphs_where_the_mutant_fails", necessity)
 		}()
 		go func() {
 			defer designWG.Done()
@@ -625,6 +736,21 @@ func Run(r *core.Run) {
 		return a.Inner < b.Inner
 	})
 	sort.Strings(shapeIDs)
+	// the base shapes (statement-form scenarios rotate over them) and the entry point re-export family
+	var baseIDs, exIDs []string
+	for _, id := range shapeIDs {
+		if shapes[id].ReadExports {
+			exIDs = append(exIDs, id)
+		} else {
+			baseIDs = append(baseIDs, id)
+		}
+	}
+	// the model must keep the exported bindings initialised on every graph it exports
+	for k, g := range graphs {
+		if !g.ExportsInit {
+			r.Infra("spec error: ExportsInitialised fails on the model's own graph %s", k)
+		}
+	}
 	// sanity of the spec data: without annotations (none in the shape, or ignored) nothing may vanish
 	for _, g := range graphs {
 		if (g.IgnoreAnn || len(shapes[g.Shape].Annotated) == 0) && g.Truth != "ann" && len(g.MayVanish) > 0 {
@@ -638,6 +764,7 @@ func Run(r *core.Run) {
 	r.Set("forms", len(forms))
 	r.Set("statements_enumerated", len(stmts))
 	r.Set("shapes", len(shapeIDs))
+	r.Set("shapes_reexport_family", len(exIDs))
 	formats := []string{"esm", "cjs", "iife"}
 
 	// ---- choose the scenarios of this run
@@ -671,14 +798,38 @@ func Run(r *core.Run) {
 		for _, s := range stmts {
 			plain := s.Inner == "" && (s.Outer == "stmt" || s.Outer == "plain")
 			if plain || (r.Thorough() && s.Inner == "") {
-				scens = append(scens, mk(s, shapeIDs[k%len(shapeIDs)]))
+				scens = append(scens, mk(s, baseIDs[k%len(baseIDs)]))
 				k++
 			}
 		}
 		// (2) a seeded sample of the whole product
-		extra := r.Pick(200, 3000)
+		extra := r.Pick(150, 3000)
 		for n := 0; n < extra; n++ {
-			scens = append(scens, mk(stmts[r.Rand.Intn(len(stmts))], shapeIDs[r.Rand.Intn(len(shapeIDs))]))
+			pool := baseIDs
+			if len(exIDs) > 0 && r.Rand.Intn(4) == 0 {
+				pool = exIDs
+			}
+			scens = append(scens, mk(stmts[r.Rand.Intn(len(stmts))], pool[r.Rand.Intn(len(pool))]))
+		}
+		// (3) label-first covering of the entry point re-export family: every shape (re-export kind x sideEffects x
+		// wrap x use) once per run, the format rotating with the seed (all three formats in the thorough tier),
+		// tree shaking default, true and false always
+		var plainStmts []*stmtRec
+		for _, s := range stmts {
+			if s.Inner == "" && (s.Outer == "stmt" || s.Outer == "plain" || s.Outer == "export") {
+				plainStmts = append(plainStmts, s)
+			}
+		}
+		for i, id := range exIDs {
+			for f := 0; f < 3; f++ {
+				if !r.Thorough() && f != (i+int(r.Seed)%3+3)%3 {
+					continue
+				}
+				sc := mk(plainStmts[r.Rand.Intn(len(plainStmts))], id)
+				sc.Format = formats[f]
+				sc.Modes = []string{"true", "false", "default"}
+				scens = append(scens, sc)
+			}
 		}
 	}
 	r.Logf("%d forms, %d statements, %d shapes enumerated by TLC; %d scenarios chosen", len(forms), len(stmts), len(shapeIDs), len(scens))
@@ -710,7 +861,11 @@ func Run(r *core.Run) {
 			Cases []nodeCase `json:"cases"`
 		}
 		for _, cr := range runs[lo:hi] {
-			nc := nodeCase{ID: fmt.Sprint(cr.idx), Alone: cr.text + "\n", Files: cr.files, Entry: "entry.js"}
+			nc := nodeCase{ID: fmt.Sprint(cr.idx), Alone: cr.text + "\n", Files: cr.files, Entry: "entry.js",
+				Cjs: cr.scen.Shape.Cjs, ReadExports: cr.scen.Shape.ReadExports}
+			if nc.ReadExports && cr.scen.Format == "iife" {
+				nc.GlobalName = globalName
+			}
 			for _, b := range cr.builds {
 				if b.ok {
 					nc.Bundles = append(nc.Bundles, nodeBundle{Name: b.mode, Format: cr.scen.Format, Code: b.code})
@@ -743,6 +898,9 @@ func Run(r *core.Run) {
 	truthCount := map[string]int{}
 	labelCount := map[string]int{}
 	sampled := 0
+	exportsCompared, exportValues, exportsUnobserved, wrapChecked := 0, 0, 0, 0
+	dimCount := map[string]int{}
+	wrapCount := map[string]int{}
 	for _, cr := range runs {
 		s := cr.scen
 		if cr.node == nil || cr.node.Fatal != "" || cr.node.Alone == nil || cr.node.Native == nil {
@@ -773,7 +931,7 @@ func Run(r *core.Run) {
 			mayVanish = append(mayVanish, "F.ann")
 		}
 		predicted := append([]string{}, g.Native...)
-		if hasAnnotation(cr.text) && !contains(predicted, "F.ann") && rawTruth == "yes" {
+		if s.Shape.SlotFile != "" && hasAnnotation(cr.text) && !contains(predicted, "F.ann") && rawTruth == "yes" {
 			// a statement with both plain and annotated probes: whether the annotated one fires is read off the native run
 			for _, e := range cr.node.Alone.Trace {
 				if e == "F.ann" {
@@ -787,6 +945,15 @@ func Run(r *core.Run) {
 		r.Case(s.id(), nontrivial)
 		truthCount[rawTruth]++
 		labelCount[s.Stmt.Label]++
+		if s.Shape.ReadExports {
+			d := s.Shape.Dims
+			dimCount["rk="+d.Rk]++
+			dimCount["se="+d.Se]++
+			dimCount["wrap="+d.Wrap]++
+			dimCount[fmt.Sprintf("use=%v", d.Use)]++
+			dimCount["format="+s.Format]++
+			dimCount[fmt.Sprintf("%s/%s/%s/%v/%s", d.Rk, d.Se, d.Wrap, d.Use, s.Format)]++
+		}
 		byName := map[string]*nodeBundleResult{}
 		for k := range cr.node.Bundles {
 			byName[cr.node.Bundles[k].Name] = &cr.node.Bundles[k]
@@ -795,7 +962,7 @@ func Run(r *core.Run) {
 			rc := &record{ID: len(all) + 1, Case: s.id(), Mode: b.mode, IgnoreAnn: s.IgnoreAnn, Files: []fileOut{}, Slot: slotOut{Parts: []int{}},
 				Truth: truth, RawTruth: rawTruth, SpecTruth: s.Stmt.Truth, SpecThr: s.Stmt.Thr, AloneThrew: threw(cr.node.Alone.Trace),
 				Nat: cr.node.Native.Trace, NatId: []string{}, NatThrew: natThrew, Bun: []string{}, MayVanish: mayVanish, Predicted: predicted,
-				Dangling: []string{}, cr: cr, b: b}
+				Dangling: []string{}, NatX: []string{}, BunX: []string{}, cr: cr, b: b}
 			if rc.Nat == nil {
 				rc.Nat = []string{}
 			}
@@ -828,6 +995,16 @@ func Run(r *core.Run) {
 					if f.SeFree {
 						annotatedFiles++
 					}
+					wrapCount[f.Wrap]++
+					// the wrap kind the model derives for the file vs the one the linker chose (spec vs code: drift, not a verdict)
+					for i, p := range s.Shape.Paths {
+						if p == f.Path && i < len(g.Wrap) {
+							wrapChecked++
+							if g.Wrap[i] != f.Wrap {
+								r.Drift("%s mode=%s: model wraps %s as %q, the linker as %q", s.id(), b.mode, p, g.Wrap[i], f.Wrap)
+							}
+						}
+					}
 				}
 			}
 			if !b.ok {
@@ -842,6 +1019,16 @@ func Run(r *core.Run) {
 				}
 				if nb.Dangling != nil {
 					rc.Dangling = nb.Dangling
+				}
+				// the exports of the entry point, read synchronously after loading (re-export family)
+				if s.Shape.ReadExports && cr.node.Native.Exports != nil && !natThrew {
+					if nb.Exports != nil {
+						rc.NatX, rc.BunX, rc.Xcmp = cr.node.Native.Exports, nb.Exports, true
+						exportsCompared++
+						exportValues += len(rc.NatX)
+					} else if !threw(nb.Trace) {
+						exportsUnobserved++
+					}
 				}
 				if !nb.Scanned {
 					unscanned++
@@ -872,6 +1059,12 @@ func Run(r *core.Run) {
 	r.Set("records_statement_classified_removable", slotRemovable)
 	r.Set("records_effectful_statement_classified_unremovable", slotKeptEffect)
 	r.Set("files_marked_side_effect_free", annotatedFiles)
+	r.Set("reexport_family_coverage", dimCount)
+	r.Set("records_entry_exports_compared_with_native", exportsCompared)
+	r.Set("export_values_compared", exportValues)
+	r.Set("records_entry_exports_not_observed", exportsUnobserved)
+	r.Set("file_wrap_kinds_recorded", wrapCount)
+	r.Set("file_wrap_kinds_checked_against_model", wrapChecked)
 	r.Set("builds_failed", buildFailed)
 	r.Set("end_to_end_not_compared_throwing_and_licensed", rskipped)
 	r.Set("bundles_not_statically_scanned", unscanned)
